@@ -120,3 +120,11 @@ func init() {
 	}
 	s["internal/stringslite.Index"] = s["internal/bytealg.IndexString"]
 }
+
+func sortStrings(ss []string) {
+	for i := 1; i < len(ss); i++ {
+		for j := i; j > 0 && ss[j] < ss[j-1]; j-- {
+			ss[j], ss[j-1] = ss[j-1], ss[j]
+		}
+	}
+}
